@@ -73,11 +73,16 @@ class FunctionTranslator:
         return '{| ' + '; '.join(fields) + ' |}'
 
     # ---- expressions: returns (kind, gallina) with kind in pure/res/cond/condM
-    def expr(self, node):
+    def expr(self, node, want='value'):
         key = norm(node)
         if key in self.leaves:
             self.used_leaves.add(key)
-            kind, text = self.leaves[key]
+            entry = self.leaves[key]
+            if isinstance(entry, dict):          # the same text read as a condition and as a value
+                if want not in entry:
+                    self.fail(node, 'leaf has no %r reading' % want)
+                entry = entry[want]
+            kind, text = entry
             return kind, self.fill(text)
         if isinstance(node, ast.Name):
             if node.id in self.bound:
@@ -131,7 +136,7 @@ class FunctionTranslator:
         self.fail(node, 'expression outside the translated subset (no leaf entry)')
 
     def cond(self, node):
-        k, t = self.expr(node)
+        k, t = self.expr(node, 'cond')
         if k in ('cond', 'condM'):
             return k, t
         self.fail(node, 'a condition must be a cond/condM leaf (truthiness is not guessed)')
@@ -201,8 +206,8 @@ class FunctionTranslator:
             if node.orelse:
                 self.fail(node, 'for/else')
             ik, it = self.expr(node.iter)
-            if ik != 'pure':
-                self.fail(node.iter, 'loop iterable must be pure')
+            if ik not in ('pure', 'res'):
+                self.fail(node.iter, 'loop iterable must be a value')
             tkey = norm(node.target)
             targets = self.s.get('targets', {}).get(tkey)
             if targets is None:
@@ -210,6 +215,9 @@ class FunctionTranslator:
             pat, sets = targets          # e.g. ("'(i, v)", [('i','i'),('v','v')])
             body = self.block(node.body)
             lets = ''.join('(let st := %s in ' % self.setter(var, val) for var, val in sets)
+            if ik == 'res':         # obtaining the iterator may raise (e.g. iterating a non-iterable)
+                return '(bind %s (fun l__ => for_each l__ st (fun %s st => %s%s%s)))' % (
+                    it, pat, lets, body, ')' * len(sets))
             return '(for_each %s st (fun %s st => %s%s%s))' % (it, pat, lets, body, ')' * len(sets))
         if isinstance(node, ast.Continue):
             return '(Ok (Cont st))'
@@ -302,7 +310,7 @@ class FunctionTranslator:
         init = '{| ' + '; '.join('%s_%s := %s' % (px, v, i) for v, _t, i in self.locals) + ' |}'
         out.append('Definition %s %s : res (%s) :=' % (n, self.s['params'], self.s['returns']))
         out.append('  let st := %s in' % init)
-        out.append('  match %s with' % body)
+        out.append('  match (%s : res (ctl %s_st (%s_st * (%s)))) with' % (body, n, n, self.s.get('ret_type', self.s['returns'])))
         out.append('  | Ok (Ret (st, r__)) => %s' % self.fill(self.s.get('finish', 'Ok r__')))
         out.append('  | Ok (Normal st) | Ok (Brk st) | Ok (Cont st) => %s' % self.fill(self.s.get('falloff', 'Raise EUnmodelled')))
         out.append('  | Raise e__ => Raise e__')
@@ -360,7 +368,27 @@ def translate_module(repo, mod, header):
         got = pinned_text(f)
         if got != want:
             raise Unsupported(f, 'pinned function %s changed: now %r' % (qual, got[:200]), rel)
+    for (rel, qual), want in mod.get('pinned_assign', {}).items():
+        if rel not in trees:
+            trees[rel] = ast.parse(open(os.path.join(repo, rel)).read())
+        got = find_assign(trees[rel], qual)
+        if got != want:
+            raise Unsupported(trees[rel], 'pinned attribute %s changed: now %r' % (qual, got), rel)
     return '\n'.join(out)
+
+
+def find_assign(tree, qualname):
+    """source text of the value assigned to Class.attr (or a module-level name); None if absent"""
+    parts = qualname.split('.')
+    body = tree.body
+    for p in parts[:-1]:
+        nxt = [x for x in body if isinstance(x, ast.ClassDef) and x.name == p]
+        if not nxt:
+            return None
+        body = nxt[0].body
+    vals = [norm(x.value) for x in body if isinstance(x, ast.Assign) and len(x.targets) == 1 and
+            isinstance(x.targets[0], ast.Name) and x.targets[0].id == parts[-1]]
+    return vals[0] if len(vals) == 1 else None
 
 
 def pinned_text(f):
